@@ -718,7 +718,7 @@ func genParseNonPosix(r *rng, t treeSpec) parseIn {
 	}
 	for n := r.intn(3); n > 0; n-- {
 		words = append(words, pick(r, [][]string{{"-bool-short"}, {"-bool-long"}, {"--bool-long"}, {"-delim" + d + "v"}, {"-delim", "v"}, {"-delim" + d}, {"-c"}, {"-count"}, {"--count"},
-			{"-cc"}, {"--opt", "v"}, {"-o", "v"}, {"-ov"}, {"-o=v"}, {"-list", "a"}, {"-list", "a", "b"}, {"--list", "a"}, {"--delim", "v"}, {"pos"}, {"--"}, {"-x"}})...)
+			{"-cc"}, {"--opt", "v"}, {"-o", "v"}, {"-ov"}, {"-o=v"}, {"-o=", "v"}, {"-c=", "x"}, {"-list", "a"}, {"-list", "a", "b"}, {"--list", "a"}, {"--delim", "v"}, {"pos"}, {"--"}, {"-x"}})...)
 	}
 	if r.chance(35) {
 		// a flag that waits for its value, then the cursor
@@ -869,6 +869,20 @@ func genLookupArg(r *rng, tier string) interface{} {
 	for i := range in.Flags {
 		in.Flags[i].Persistent = false
 		in.Flags[i].Mutex = nil
+	}
+	if r.chance(15) {
+		// a non-POSIX flag set: the whole word after `-` is one shorthand
+		pi := genParseNonPosix(r, treeSpec{Cmds: []cmdSpec{{Name: "root", Parent: -1, Interspersed: true}}})
+		in.Flags = pi.Tree.Cmds[0].Flags
+		d := "="
+		for _, f := range in.Flags {
+			if f.Delim != "" {
+				d = f.Delim
+			}
+		}
+		in.Arg = pick(r, []string{"-bool-short", "-bool-long", "--bool-long", "-delim" + d + "v", "-delim", "-delim" + d, "-delim=v", "-c", "-count", "--count", "-cc", "-o", "-ov", "-o=v", "-o=",
+			"-list", "--list", "--list=a", "-", "--", "--delim", "--delim" + d + "v", "-x", "-bool-short=false", "-bool", "--opt", "--opt=v", "-opt"})
+		return in
 	}
 	if r.chance(20) {
 		// the fork's features: several words per flag, custom delimiters
